@@ -234,12 +234,20 @@ func (w *Flushable) flush() error {
 
 // Stat returns a particular internal stat of the database.
 func (w *Flushable) Stat(property string) (string, error) {
-	return w.underlying.Stat(property)
+	return w.getUnderlying().Stat(property)
+}
+
+// getUnderlying reads the underlying DB under the lock (a lazy flushable replaces it on the first flush)
+func (w *Flushable) getUnderlying() kvdb.Store {
+	w.lock.RLock()
+	defer w.lock.RUnlock()
+
+	return w.underlying
 }
 
 // Compact flattens the underlying data store for the given key range.
 func (w *Flushable) Compact(start []byte, limit []byte) error {
-	return w.underlying.Compact(start, limit)
+	return w.getUnderlying().Compact(start, limit)
 }
 
 /*
